@@ -511,6 +511,24 @@ func (in *Interp) intrinsic(fr *Frame, name string, args []Value, fn *ssa.Functi
 				return unicode.IsPunct(rune(r))
 			}
 		}
+		// symbolic rune: ASCII only (decided), where the classes are intervals
+		t := args[0].(*Term)
+		if !in.decide(ts.Mk("bvult", SBool, t, ts.Const(t.sort, 0x80))) {
+			panic(pathAbort{"unsupported: " + name + " on a symbolic non-ASCII rune"})
+		}
+		rng := func(lo, hi uint64) *Term {
+			return ts.And(ts.Mk("bvuge", SBool, t, ts.Const(t.sort, lo)), ts.Mk("bvule", SBool, t, ts.Const(t.sort, hi)))
+		}
+		switch name {
+		case "unicode.IsLetter":
+			return boolOrTerm(ts.Or(rng('a', 'z'), rng('A', 'Z')))
+		case "unicode.IsDigit":
+			return boolOrTerm(rng('0', '9'))
+		case "unicode.IsUpper":
+			return boolOrTerm(rng('A', 'Z'))
+		case "unicode.IsLower":
+			return boolOrTerm(rng('a', 'z'))
+		}
 		panic(pathAbort{"unsupported: " + name + " on a symbolic rune"})
 
 	// ---------------- regexp (native on concrete subjects)
@@ -793,7 +811,12 @@ func (in *Interp) hasPrefix(s, prefix Value) Value {
 			p = p[n:]
 			cs = cs[1:]
 		case c.b != nil:
-			conj = append(conj, in.ts.Eq(c.b, in.ts.BV(8, uint64(p[0]))))
+			// byte by byte, as the real comparison proceeds: each test is a
+			// decision on one byte (keeps the bytes independent for the
+			// exact byte-domain feasibility check)
+			if !in.decide(in.ts.Eq(c.b, in.ts.BV(8, uint64(p[0])))) {
+				return false
+			}
 			p = p[1:]
 			cs = cs[1:]
 		default:
@@ -1169,8 +1192,4 @@ func (in *Interp) sprint(fr *Frame, args Slice, ln bool) Value {
 		prevString = isStr
 	}
 	return out
-}
-
-func (in *Interp) symRegexp(name string, re *regexp.Regexp, args []Value) Value {
-	panic(pathAbort{"unsupported: " + name + " on a symbolic string (pattern " + strconv.Quote(re.String()) + ")"})
 }
